@@ -134,8 +134,8 @@ static Plan plan_C02(Rng& r, const std::string&) {
 				switch (r.below(4)) {
 					case 0: g.push(mk(c, "et_union", {a, b, long(r.below(4))}), 0); break;
 					case 1: g.push(mk(c, "et_union_disj", {a, b}), 0); break;
-					case 2: g.push(mk(c, "et_isect", {a, b, long(r.below(3))}), 0); break;
-					default: g.push(mk(c, "et_isect_bu", {a, b, long(r.below(3))}), 0); break;
+					case 2: g.push(mk(c, "et_isect", {a, b, long(r.below(4))}), 0); break;
+					default: g.push(mk(c, "et_isect_bu", {a, b, long(r.below(4))}), 0); break;
 				}
 			}
 			// afterwards: operands and results are mutated / destroyed; everything must keep its value
